@@ -303,6 +303,13 @@ def enum_value_attr(ev, name):
         return ops.wrap_int(V.enum_table(ev.cls, ev.idx, lambda m: getattr(m.value, name)))
     if callable(first):
         return MethodRef('enumvalue', name, ev)
+    if all(isinstance(v, str) for v in vals) and len(vals) <= 400 and not E.cur().pure:
+        # text attribute (a wire name): case split over the members - lengths and offsets downstream stay concrete
+        P = E.cur()
+        for k in range(len(vals) - 1):
+            if P.branch(ev.idx == k):
+                return vals[k]
+        return vals[-1]
     if all(isinstance(v, str) for v in vals) and all(v.isascii() for v in vals):
         return enum_str_value(ev.cls, ev.idx, vals)
     if all(isinstance(v, str) for v in vals):
